@@ -42,6 +42,7 @@ type simReq struct {
 type simulator struct {
 	mu        sync.Mutex
 	ports     [simHosts + 1]int
+	host443   string        // "127.1.A.B" when its port 443 could be bound (A.B derived from the port base), else ""
 	hostMode  [simHosts]int // 0 normal, 1 accept but never handshake, 2 close right after accept
 	world     map[string]simEntry
 	log       []simReq
@@ -53,6 +54,9 @@ type simulator struct {
 var sim *simulator
 
 func simHostPort(i int) string {
+	if i == simHosts {
+		return sim.host443 // the host that is reached on the DEFAULT port: no port in its URLs
+	}
 	return "127.0.0." + strconv.Itoa(i+1) + ":" + strconv.Itoa(sim.ports[i])
 }
 
@@ -82,6 +86,8 @@ func startSim() *simulator {
 	for i := 0; i < simHosts; i++ {
 		leafTmpl.IPAddresses = append(leafTmpl.IPAddresses, net.ParseIP("127.0.0."+strconv.Itoa(i+1)))
 	}
+	addr443 := "127.1." + strconv.Itoa((base>>8)&255) + "." + strconv.Itoa(base&255)
+	leafTmpl.IPAddresses = append(leafTmpl.IPAddresses, net.ParseIP(addr443))
 	leafDER, err := x509.CreateCertificate(rand.Reader, leafTmpl, caCert, &leafKey.PublicKey, caKey)
 	if err != nil {
 		panic(err)
@@ -101,6 +107,11 @@ func startSim() *simulator {
 		}
 		s.ports[i] = base + i
 		go s.serve(i, ln)
+	}
+	// URLs without a port must be fetched from port 443: one more host, on an address of its own, when 443 can be bound
+	if ln, err := net.Listen("tcp", addr443+":443"); err == nil {
+		s.host443 = addr443
+		go s.serve(simHosts, ln)
 	}
 	cl, err := net.Listen("tcp", "127.0.0.1:"+strconv.Itoa(base+simHosts))
 	if err != nil {
@@ -161,7 +172,10 @@ func (s *simulator) serve(host int, ln net.Listener) {
 func (s *simulator) handle(host int, raw net.Conn) {
 	defer raw.Close()
 	s.mu.Lock()
-	mode := s.hostMode[host]
+	mode := 0
+	if host < simHosts {
+		mode = s.hostMode[host]
+	}
 	done := s.done
 	s.mu.Unlock()
 	switch mode {
